@@ -38,3 +38,60 @@ UNITS = [
 UNITS[-1].assume_preconditions = ["aas_core_codegen.parse.retree._parse:render_pointer"]
 UNITS[-1].assume_preconditions_why = ("the cursor of the returned error is the parser's own cursor over the one-element "
                                       "list [verification.pattern]; the contract of parse() does not carry that identity")
+
+# C06, rule "names of our types are unique": the whole rule function, for every list of types
+NAMES = "symbol_table.our_types"
+UNITS.append(Contract(
+    "aas_core_codegen.intermediate._translate:_verify_there_are_no_duplicate_names_of_our_types", ["C06"],
+    ghost={"gi": "int", "gj": "int"},
+    loops={1: Loop(
+        invariants=[("recorded", f"forall(0, _i, lambda k: {NAMES}[k].name in observed_names)"),
+                    ("distinct-while-no-error",
+                     f"implies(len(errors) == 0 and 0 <= gi and gi < gj and gj < _i, {NAMES}[gi].name != {NAMES}[gj].name)")],
+        body_ensures=[("every-name-reported-or-recorded", "appended_count(errors) + dict_writes(observed_names) == 1")],
+        body_twins=[("nothing-happens", "appended_count(errors) + dict_writes(observed_names) == 0")])},
+    ensures=[("no-error-means-distinct-names",
+              f"implies(len(result) == 0 and 0 <= gi and gi < gj and gj < len({NAMES}), "
+              f"{NAMES}[gi].name != {NAMES}[gj].name)")],
+    twins=[("never-reports", "len(result) == 0")],
+    use_as_callee=False))
+
+# C06, rule "optional constructor arguments default to None": per argument (body lemma of the inner loop)
+UNITS.append(Contract(
+    "aas_core_codegen.intermediate._translate:_verify_optional_constructor_arguments_default_to_none", ["C06"],
+    loops={1: Loop(),
+           2: Loop(body_ensures=[
+               ("an-optional-argument-passes-only-with-the-default-None",
+                "implies(is_kind(arg.type_annotation, OptionalTypeAnnotation) and appended_count(errors) == 0, "
+                "arg.default is not None and is_kind(arg.default, DefaultPrimitive) and arg.default.value is None)"),
+               ("at-most-one-error-per-argument", "appended_count(errors) <= 1"),
+               ("the-default-None-is-accepted",
+                "implies(arg.default is not None and is_kind(arg.default, DefaultPrimitive) and arg.default.value is None, "
+                "appended_count(errors) == 0)")],
+               body_twins=[("every-argument-is-reported", "appended_count(errors) == 1")])},
+    ensures=[("returns-the-collected-errors", "result is final('errors')")],
+    use_as_callee=False))
+
+# C06, rule "invariant descriptions are unique within a type": per invariant, the description is reported as
+# conflicting or recorded (body lemma of the inner loop; the map is created anew for every type)
+UNITS.append(Contract(
+    "aas_core_codegen.intermediate._translate:_verify_invariant_descriptions_unique", ["C06"],
+    loops={1: Loop(),
+           2: Loop(body_ensures=[("every-description-reported-or-recorded",
+                                  "appended_count(errors) + dict_writes(description_map) == 1")],
+                   body_twins=[("nothing-happens", "appended_count(errors) + dict_writes(description_map) == 0")])},
+    ensures=[("returns-the-collected-errors", "result is final('errors')")],
+    use_as_callee=False))
+
+# C05 / C06, rule "with_model_type is set wherever a class with concrete descendants is used as a property type": per
+# concrete descendant, an unset flag is reported
+UNITS.append(Contract(
+    "aas_core_codegen.intermediate._translate:_verify_with_model_type_for_classes_with_at_least_one_concrete_descendant",
+    ["C06", "C05"],
+    loops={1: Loop(), 2: Loop(),
+           3: Loop(body_ensures=[("a-descendant-without-the-flag-is-reported",
+                                  "appended_count(errors) == (0 if descendant.serialization.with_model_type else 1)")],
+                   body_twins=[("always-reported", "appended_count(errors) == 1")])},
+    ensures=[("returns-the-collected-errors", "result is final('errors')")],
+    opaque=["aas_core_codegen.intermediate._types:collect_ids_of_our_types_in_properties"],
+    use_as_callee=False))
